@@ -456,7 +456,18 @@ def main():
     for k in listed:
         if k not in counted:
             problems["vanished"].append(k)
-    ok = not any(problems.values())
+    # A listed site that is no longer in the source cannot panic any more: it is reported but does not break the tie,
+    # nor do its guard, or a count that went DOWN.  Only new sites, grown counts, missing discharges, vanished guards of
+    # sites that are still there, and unknown lemmas break it.
+    vanished_set = set(problems["vanished"])
+    hard = {
+        "new": problems["new"],
+        "count": [(k, a, b) for (k, a, b) in problems["count"] if b > a],
+        "undischarged": problems["undischarged"],
+        "guard": [(k, g) for (k, g) in problems["guard"] if k not in vanished_set],
+        "lemma": problems["lemma"],
+    }
+    ok = not any(hard.values())
     by_stats = {}
     for e in inv["sites"]:
         b = (e.get("discharge") or {}).get("by", "?")
